@@ -627,7 +627,7 @@ class PostgreSQLQueryBuilder(QueryBuilder):
                 self._return_field(term)
             elif isinstance(term, str):
                 self._return_field_str(term)
-            elif isinstance(term, (Function, ArithmeticExpression)):
+            elif isinstance(term, Term):
                 if term.is_aggregate:
                     raise QueryException("Aggregate functions are not allowed in returning")
                 self._return_other(term)
